@@ -58,8 +58,8 @@ type vc20Fixture struct {
 	// direct children of the same mapping (threshold pairs).
 	siblings [][]int
 
-	// groups lists, per mapping with at least two scalar children, the
-	// indexes of those children.
+	// groups lists, per mapping with at least two children, the indexes of
+	// those children (scalars and nodes).
 	groups [][]int
 }
 
@@ -267,6 +267,20 @@ func vc20NewFixture(tb testing.TB) (fx *vc20Fixture) {
 
 	fx.base = fx.vc20Rebind(tb, root, nil).(yaml.MapSlice)
 	fx.fields = vc20Catalogue(fx.base)
+
+	// Documented properties that the distributed example does not set (it
+	// spells refuse_any as "refuseany", which the parser ignores).
+	for _, extra := range [][]any{{"ratelimit", "refuse_any"}} {
+		if _, present := vc20Get(fx.base, extra); !present {
+			fx.fields = append(fx.fields, &vc20Field{
+				path: extra,
+				name: vc20PathName(extra),
+				key:  extra[len(extra)-1].(string),
+				kind: vc20KindBool,
+				orig: vc20Missing{},
+			})
+		}
+	}
 	fx.enums = vc20EnumPool(fx.fields)
 
 	seen := map[string]struct{}{}
@@ -302,10 +316,6 @@ func vc20NewFixture(tb testing.TB) (fx *vc20Fixture) {
 	leaves := map[string][]int{}
 	var leafParents []string
 	for i, f := range fx.fields {
-		if f.kind == vc20KindNode {
-			continue
-		}
-
 		if _, isKey := f.path[len(f.path)-1].(string); !isKey {
 			continue
 		}
